@@ -302,6 +302,31 @@ def strace_case(case, profile="dev"):
     return ev, (res[0] if res else {})
 
 
+def _recorded_session(exe):
+    """the byte stream a REAL client sends to the hub when it pushes one new file (magic, Hello, List, Put + content, Bye), captured by a
+    stand-in for ssh that tees the client's output on its way to a real `copia serve`"""
+    import shutil, tempfile
+    base = tempfile.mkdtemp(prefix="copia-verif-rec-")
+    try:
+        local, hub, bindir, home = (os.path.join(base, x) for x in ("local", "hub", "bin", "home"))
+        for x in (local, hub, bindir, home):
+            os.makedirs(x)
+        open(os.path.join(local, "planted.txt"), "w").write("planted by a frame that was never a frame")
+        log = os.path.join(base, "stream.bin")
+        with open(os.path.join(bindir, "ssh"), "w") as f:
+            # like ssh, the stand-in must end when the remote command ends: the server is the main process, tee feeds it
+            f.write('#!/bin/bash\nroot="${@: -1}"\nexec %s serve "$root" < <(tee %s)\n' % (exe, log))
+        os.chmod(os.path.join(bindir, "ssh"), 0o755)
+        envp = dict(os.environ, PATH=bindir + ":" + os.environ["PATH"], HOME=home)
+        p = subprocess.run([exe, "hub-sync", local, "fakehost:" + hub], stdout=subprocess.PIPE, stderr=subprocess.PIPE, env=envp, timeout=60)
+        data = open(log, "rb").read() if os.path.exists(log) else b""
+        if p.returncode != 0 or not data.startswith(b"COPIA1") or not os.path.exists(os.path.join(hub, "planted.txt")):
+            raise Inconclusive("could not record a client session (exit %d, %d bytes)" % (p.returncode, len(data)))
+        return data
+    finally:
+        shutil.rmtree(base, ignore_errors=True)
+
+
 def serve_prologue_check(R, oid, key):
     """the real `copia serve ROOT` on inputs that never get as far as a well-formed request: the served tree (the `.copia` control
     directory aside) must be byte-for-byte what it was - including files that look like someone's staging files"""
@@ -312,7 +337,13 @@ def serve_prologue_check(R, oid, key):
               ("the magic and an oversized length prefix", b"COPIA1\xff\xff\xff\xff"), ("the magic and a frame that is not a request", b"COPIA1\x00\x00\x00\x01\xf6")]
     for prof in ("dev", "release"):
         exe = c04.build_copia(prof)
-        for label, data in inputs:
+        # ONE oversized control frame (length prefix 2^20+1, the first refused length) whose BODY happens to be a complete valid session
+        # - Hello, List, a Put that plants a file, Bye - padded to the announced length: by the framing there is no well-formed request in it
+        import struct
+        body = _recorded_session(exe)[6:]
+        big = (1 << 20) + 1
+        more = [("one oversized frame whose body looks like requests", b"COPIA1" + struct.pack(">I", big) + body + b"\x00" * (big - len(body)))]
+        for label, data in inputs + more:
             base = tempfile.mkdtemp(prefix="copia-verif-srv-")
             try:
                 root = os.path.join(base, "hub")
@@ -338,7 +369,7 @@ def serve_prologue_check(R, oid, key):
                     return {"confirmed": True, "replay_path": R.save_replay(oid, c), "key": key, "detail": "`copia serve` given %s (%s): %s" % (label, prof, why)}
             finally:
                 shutil.rmtree(base, ignore_errors=True)
-    return {"confirmed": False, "detail": "`copia serve` leaves the served tree untouched on %d inputs that never reach a well-formed request (dev+release)" % len(inputs)}
+    return {"confirmed": False, "detail": "`copia serve` leaves the served tree untouched on %d inputs that never reach a well-formed request (dev+release)" % (len(inputs) + 1)}
 
 
 def outside_check(R, oid, key, only=None):
